@@ -5,7 +5,7 @@ OCAML = S.OCAML
 GO = S.GO
 FAMILIES = "mixed,big,sdsender,startup".split(",")
 PROP = "props/C01.v"
-PROOFS = ["proofs/SupInv.v", "proofs/SupStop.v", "proofs/SupTrig.v"]
+PROOFS = ["proofs/SupInv.v", "proofs/SupStop.v", "proofs/SupTrig.v", "proofs/SupGate.v", "proofs/SupOnce.v"]
 
 
 def run(run):
